@@ -17,14 +17,20 @@ BVals == <<NULL, 0, 1>>
 JAll == <<NULL, 1, 2, 3, 4, 5, 6, 7, 8, 9, 10, 11, 12>>
 JLit == <<NULL, 3, 4, 5, 6, 7, 8, 9, 10>>        \* operands that fit a GraphQL Int literal
 DocFrom(id, c) == [id |-> id, s |-> SVals[D(c, 6) + 1], i |-> IVals[D(R(c, 6), 6) + 1], b |-> BVals[D(R(c, 36), 3) + 1],
-                   j |-> JAll[D(R(c, 108), 13) + 1]]
+                   j |-> JAll[D(R(c, 108), 13) + 1], a |-> D(R(c, 1404), 8) + 1]
 ValSeq(f) == CASE f = "s" -> SVals [] f = "i" -> IVals [] f = "b" -> BVals [] f = "j" -> JLit
 FName(k) == <<"s", "i", "b", "j">>[k + 1]
 CmpOps == <<"_eq", "_ne", "_gt", "_ge", "_lt", "_le">>
 
+FNameA(k) == <<"s", "i", "b", "j", "a", "a">>[k + 1]
+ArrQ == <<"_any", "_all", "_none">>
 AtomFrom(c) ==
-  LET f  == FName(D(c, 4))
-      c1 == R(c, 4)
+  IF FNameA(D(c, 6)) = "a"
+  THEN LET c1 == R(c, 6) IN
+       [t |-> "arr", f |-> "a", q |-> ArrQ[D(c1, 3) + 1], op |-> CmpOps[D(R(c1, 3), 6) + 1], v |-> D(R(c1, 18), 3)]
+  ELSE
+  LET f  == FNameA(D(c, 6))
+      c1 == R(c, 6)
       vs == ValSeq(f)
       n  == Len(vs)
       k  == D(c1, 10)
@@ -73,7 +79,7 @@ Big == 1000000
 RE(n) == RandomElement(0..(n + step - step))
 Init == step = 0 /\ case = <<>>
 Next ==
-  \E dc \in {[k \in 1..NDocs |-> RE(1403)]} :
+  \E dc \in {[k \in 1..NDocs |-> RE(11231)]} :
   \E kc \in {RE(9)}, sh \in {RE(11)} :
   \E a1 \in {RE(Big)}, a2 \in {RE(Big)}, a3 \in {RE(Big)} :
   \E oc \in {RE(255)}, lc \in {RE(11)} :
